@@ -415,6 +415,13 @@ def tdIncluded (hc : HookCfg) (a : Attr) : Bool := (ovOf hc a).omitted != some t
 def tdAllowed (hc : HookCfg) (attrs : List Attr) : List Obj :=
   (attrs.filter (tdIncluded hc)).map (fun a => Obj.str (tdKey hc a))
 
+/-- `instance['a']` raised `KeyError` inside an unstructure hook.  Unstructure hooks have no `try`, compute nothing
+from the values they emit and are otherwise total in the model, so "the call raises" is "the marker occurs in the
+output" (the driver answers `(err (leaf))` then).  Exact for consistent customisations (`ConsistentTD`: no later step
+pops or assigns the final key of another attribute -- `C09_td_keyerror`); outside them the driver answers
+`unmodelled` for an instance that lacks a required key. -/
+def keyErrMark : Obj := .str (String.singleton (Char.ofNat 0xFFFE))
+
 /-- ```
 res = instance.copy()
 res.pop('a', None)                              # omitted; also when renamed
@@ -432,7 +439,11 @@ def hunTDSteps (un : UnFn) (unIsId : Option Ty → Bool) (hc : HookCfg) (inst : 
       if o.uh.isNone && unIsId a.ty && o.rename.isNone then hunTDSteps un unIsId hc inst as res1
       else
         match dlookup inst (.str a.name) with
-        | none => hunTDSteps un unIsId hc inst as res1        -- key absent (required keys: `KeyError`, not modelled)
+        | none =>
+          -- key absent: the assignment of a non-required key is guarded by `if 'a' in instance:`; that of a required
+          -- key is not, and `instance['a']` raises `KeyError` (the raised exception is the entry `keyErrMark`)
+          if a.required then hunTDSteps un unIsId hc inst as (dictSet res1 (.str (tdKey hc a)) keyErrMark)
+          else hunTDSteps un unIsId hc inst as res1
         | some v => hunTDSteps un unIsId hc inst as (dictSet res1 (.str (tdKey hc a)) (attrUn un o a v))
 
 def hunTD (un : UnFn) (unIsId : Option Ty → Bool) (hc : HookCfg) (attrs : List Attr) (inst : List (Obj × Obj)) : Obj :=
@@ -711,15 +722,9 @@ def tyHasClsL : List Ty → Bool
   | t :: ts => tyHasCls t || tyHasClsL ts
 end
 
-def Attr.toField (a : Attr) : Field :=
-  { name := a.name, alias := a.alias, ty := a.ty, dflt := a.dflt, init := a.init, required := a.required }
-
-def GCls.toCore (c : GCls) : Cls :=
-  { kind := (match c.kind with | .typeddict => .typeddict | .dataclass => .dataclass | _ => .attrs),
-    frozen := c.frozen || c.kind == .namedtuple, fields := c.attrs.map Attr.toField }
-
-/-- the data-path world used for class-free types (enums, hashability) -/
-def GWorld.core (g : GWorld) : World := { classes := g.classes.map GCls.toCore, enums := g.enums }
+/-- the data-path world used for class-free types (enums; no classes: a class-free type never consults the class
+table, and an instance met at an untyped / `Any` position is outside the model -- the driver answers `unmodelled`) -/
+def GWorld.core (g : GWorld) : World := { classes := [], enums := g.enums }
 
 def convCfg : Cfg := { gen := true, tupleStrat := false, detailed := false, forbid := false }
 
